@@ -197,7 +197,8 @@ func c13Case(r *core.Run, idx int, rng *rand.Rand) {
 		if s.HasRelay {
 			want = relay
 		}
-		if !dd.HasRelay || normNL(dd.RelayState) != normNL(want) {
+		// an absent field and an empty field are the same RelayState for the receiving party
+		if (!dd.HasRelay && want != "") || normNL(dd.RelayState) != normNL(want) {
 			viol("relay_state_changed", fmt.Sprintf("RelayState field %q, request %q", dd.RelayState, want))
 		}
 		r.Count("relay_checked", 1)
